@@ -375,8 +375,104 @@ def reuse_section(rep, rng, tier):
         rep.broken.append('correspondence:reuse (%d of %d requests differ)' % (sec['mismatches'], sec['cases']))
 
 
+def run_schedule(items, cfg, reqs, order, rng=None):
+    """Creates the lazy requests in order on ONE parser, then pulls one item at a time from the request named by
+    `order` (a recorded schedule) or by `rng`; returns the outputs, the error names and the schedule used."""
+    from .. import streams
+    from .. import core
+    from ..impl import record_args
+    from pykdebugparser.pykdebugparser import PyKdebugParser
+    recs = [record_args(it[1], it[4], it[2], it[3]) for it in items if it[0] == 'E']
+    data = streams.v2_file([(7, 42, 'launchd')], recs)
+    p = PyKdebugParser()
+    p.filter_tid = cfg['tid']
+    p.filter_class = list(cfg['classes'])
+    p.filter_subclass = list(cfg['subs'])
+    fc_arg = None if cfg['fc_arg'] is None else list(cfg['fc_arg'])
+    gens, outs, errs = [], [], []
+    for r in reqs:
+        try:
+            g = (p.kevents(io.BytesIO(data), fc_arg) if r == 'k' else p.traces(io.BytesIO(data)) if r == 't'
+                 else p.callstacks(io.BytesIO(data)))
+            gens.append(iter(g))
+        except Exception:
+            gens.append(None)
+        outs.append([])
+        errs.append(None)
+    alive = [i for i, g in enumerate(gens) if g is not None]
+    used = []
+    pending = list(order) if order is not None else None
+    while alive:
+        if pending is not None:
+            if not pending:
+                break
+            i = pending.pop(0)
+            if i not in alive:
+                continue
+        else:
+            i = rng.choice(alive)
+        used.append(i)
+        try:
+            outs[i].append(next(gens[i]))
+        except StopIteration:
+            alive.remove(i)
+        except Exception as e:                         # a decoder fed random words may raise: not this property's business
+            errs[i] = core.err_name(e)
+            alive.remove(i)
+    return outs, errs, used
+
+
+def schedules_section(rep, rng, tier):
+    """One PyKdebugParser object, fixed filter attributes, SEVERAL lazy listings alive at once (event listings next to
+    traces() / callstacks() requests, which run the event filter with helper classes added) and consumed in an
+    arbitrary interleaving: every event listing must still be the restriction by the caller's settings."""
+    from .. import streams
+    from .. import core
+    from ..impl import record_args
+    from pykdebugparser.pykdebugparser import PyKdebugParser
+    sec = rep.section('schedules')
+    sec['rule'] = ('one parser object x 2-4 lazy requests (k = kevents, t = traces, c = callstacks) created up front on the same '
+                   'v2 stream and consumed item by item in a random interleaving, filter attributes fixed; each event listing '
+                   'vs the model and vs the declarative predicate (the t / c outputs are not compared here: C13)')
+    n = 150 if tier == 'quick' else 4000
+    for _ in range(n):
+        items = gen_items(rng, rng.randrange(4, 14), False)
+        cfg = gen_cfg(rng, items)
+        cfg['proc'] = None
+        cfg['tuple'] = False
+        if not cfg['classes'] and not cfg['subs'] and rng.random() < 0.7:
+            cfg['classes'] = [rng.choice([4, 4, 1, 0x25])]
+        reqs = [rng.choice('kktc') for _ in range(rng.randrange(2, 5))]
+        if 'k' not in reqs:
+            reqs[rng.randrange(len(reqs))] = 'k'
+        outs, errs, order = run_schedule(items, cfg, reqs, None, rng)
+        case = {'kind': 'v2', 'cfg': cfg, 'items': items}
+        ln = line_fn(case)
+        m = core.drive([ln])[0]
+        for i, r in enumerate(reqs):
+            if r != 'k':
+                continue
+            sec['cases'] += 1
+            got = ('ok ' + show_listing(outs[i]) + ' | ') if errs[i] is None else 'err ' + errs[i]
+            if got != m:
+                sec['mismatches'] += 1
+                if len(rep.first_diffs) < 10:
+                    rep.first_diffs.append({'section': 'schedules', 'line': ln[:1500], 'model': m[:600], 'impl': got[:600]})
+            res = oracle(case, got)
+            if res:
+                rep.add_failure(res[0].replace('filters:', 'filters:schedule-'),
+                                'with other lazy requests alive on the same parser object (requests %s, listing %d, consumption '
+                                'order %s): %s' % (''.join(reqs), i, order[:40], res[1]),
+                                {'section': 'schedules', 'requests': reqs, 'order': order, 'items': items, 'cfg': cfg})
+            elif nontrivial(case, got):
+                sec['distinct_nontrivial'] += 1
+    if sec['mismatches']:
+        rep.broken.append('correspondence:schedules (%d of %d listings differ)' % (sec['mismatches'], sec['cases']))
+
+
 def correspondence(rep, rng, tier):
     reuse_section(rep, rng, tier)
+    schedules_section(rep, rng, tier)
     for sec, kind in (('filters-v2', 'v2'), ('filters-mixed', 'stub'), ('filters-v3', 'v3')):
         run_section(rep, sec, gen_cases(rng, tier, kind), line_fn=line_fn, impl_fn=impl_fn, oracle_fn=oracle,
                     nontrivial_fn=nontrivial, kind_fn=kind_fn, rule=RULES[sec])
@@ -391,7 +487,50 @@ def replay(path):
     if 'replay' not in r:
         print(json.dumps(r, indent=1)[:4000])
         return 1
-    case = r['replay']['case']
+    rp = r['replay']
+    if rp.get('section') == 'schedules':
+        case = {'kind': 'v2', 'cfg': rp['cfg'], 'items': rp['items']}
+        outs, errs, _ = run_schedule(rp['items'], rp['cfg'], rp['requests'], rp['order'])
+        bad = 0
+        print('requests:', ''.join(rp['requests']), ' schedule:', rp['order'])
+        print('model:', core.drive([line_fn(case)])[0])
+        for i, q in enumerate(rp['requests']):
+            if q == 'k':
+                got = ('ok ' + show_listing(outs[i]) + ' | ') if errs[i] is None else 'err ' + errs[i]
+                res = oracle(case, got)
+                print('listing %d:' % i, got, '' if not res else '<- ' + res[1])
+                bad += bool(res)
+        if bad:
+            print(f'VIOLATION property=C12 replay={path}')
+            return 1
+        print('no violation on this input')
+        return 0
+    if rp.get('section') == 'reuse':
+        from pykdebugparser.pykdebugparser import PyKdebugParser
+        from .. import streams
+        from ..impl import record_args
+        items = rp['items']
+        data = streams.v2_file([(7, 42, 'launchd')], [record_args(it[1], it[4], it[2], it[3]) for it in items if it[0] == 'E'])
+        p = PyKdebugParser()
+        bad = 0
+        for cfg in rp['steps']:
+            conv = tuple if cfg['tuple'] else list
+            p.filter_tid, p.filter_class, p.filter_subclass = cfg['tid'], conv(cfg['classes']), conv(cfg['subs'])
+            fc_arg = None if cfg['fc_arg'] is None else conv(cfg['fc_arg'])
+            case = {'kind': 'v2', 'cfg': cfg, 'items': items}
+            try:
+                got = 'ok ' + show_listing(list(p.kevents(io.BytesIO(data), fc_arg))) + ' | '
+            except Exception as e:
+                got = 'err ' + core.err_name(e)
+            res = oracle(case, got)
+            print('request under', json.dumps(cfg), '->', got, '' if not res else '<- ' + res[1])
+            bad += bool(res)
+        if bad:
+            print(f'VIOLATION property=C12 replay={path}')
+            return 1
+        print('no violation on this input')
+        return 0
+    case = rp['case']
     fl, fi, fo = (cli_line, cli_impl, cli_oracle) if r['replay'].get('section') == 'cli-kevents' else (line_fn, impl_fn, oracle)
     try:
         got = fi(case)
